@@ -383,6 +383,32 @@ func (r *runner) held(e *envRec) error {
 	})
 }
 
+var errStop = fmt.Errorf("c18: script ends early, the observation stands")
+
+// killedHealthy: did the core, in its current life, KILL a task whose last update before the KILL was an
+// ordinary (non-reconciliation) one with a non-terminal state?
+func (r *runner) killedHealthy() bool {
+	last := map[string]sim.Record{}
+	for _, t := range r.w.Trace() {
+		if t.Epoch != r.life || len(t.TaskIDs) != 1 {
+			continue
+		}
+		id := t.TaskIDs[0]
+		switch {
+		case t.Dir == "event" && t.Type == "UPDATE":
+			last[id] = t
+		case t.Dir == "call" && t.Type == "KILL":
+			if u, ok := last[id]; ok && u.Reason == "" {
+				switch u.State {
+				case "TASK_STAGING", "TASK_STARTING", "TASK_RUNNING":
+					return true
+				}
+			}
+		}
+	}
+	return false
+}
+
 // bring creates environment number len(r.envs) and takes it to `point`.
 func (r *runner) bring(point string) error {
 	e := &envRec{idx: len(r.envs), point: point, gate: fmt.Sprintf("g%d", len(r.envs))}
@@ -399,6 +425,11 @@ func (r *runner) bring(point string) error {
 		defer cancel()
 		id, st, err := r.newEnv(ctx)
 		if err != nil {
+			if r.killedHealthy() {
+				// not a harness problem: the core itself killed a task it had just launched and that had
+				// reported nothing but non-terminal states. The script ends here; what happened is observed.
+				return errStop
+			}
 			return &sim.InfraError{What: "NewEnvironment", Err: err}
 		}
 		if st != "CONFIGURED" {
@@ -632,6 +663,9 @@ func runScenario(sc *scenario, verbose bool) (string, error) {
 					err = r.quiet(1, "pre")
 				}
 			}
+		}
+		if err == errStop {
+			break
 		}
 		if err != nil {
 			if os.Getenv("C18_VERBOSE") != "" {
